@@ -9,7 +9,8 @@
 (*                                                                             *)
 (* Bounds are passed doubled (b2 = 2*k, 2*s) so that half-integer s stay       *)
 (* integers.  Domain: empty diagonal, weights >= 0, n <= 12, weights <= 6 :    *)
-(* every intermediate value is below 200.                                      *)
+(* every intermediate value is below 200 (large inputs of the harness: n <=     *)
+(* 300, weights <= 3, below 2000; two-level weights: see that section).         *)
 EXTENDS BctBase, SequencesExt
 
 (* degree of node i counted inside the node set S                              *)
